@@ -331,6 +331,26 @@ def directed_dags(sysm):
              gcalls=[(1, 1, 'g')], version=('0.9.30', '0'), lang='c++'),
         _exe(3, 'bin/tools/prog3', [2, 0], [(2, 2, 'f'), (2, 2, 'g'), (0, 0, 'g')]),
     ]))
+    # D8/D9: static diamond whose shared node has dependencies of its own
+    # (prog -> a, b; a -> c; b -> c; c -> d [-> e]): c is reached twice and must
+    # still come before d on the link line, whatever the order of the libs
+    out.append(('static-diamond-with-tail', [
+        _lib(0, 'static', 'deep/base/ddd', []),
+        _lib(1, 'static', 'mid/ccc', [0], fcalls=[(0, 0, 'f')], gcalls=[(0, 0, 'g')]),
+        _lib(2, 'static', 'left/aaa', [1], fcalls=[(1, 1, 'f')], gcalls=[(1, 1, 'g')]),
+        _lib(3, 'static', 'right/sub/bbb', [1], fcalls=[(1, 1, 'g')], gcalls=[(1, 1, 'f')]),
+        _exe(4, 'bin/prog4', [2, 3], [(2, 2, 'f'), (3, 3, 'g')]),
+    ]))
+    out.append(('static-diamond-with-long-tail', [
+        _lib(0, 'static', 'deep/eee', [], lang='c++'),
+        _lib(1, 'static', 'deep/base/ddd', [0], fcalls=[(0, 0, 'g')], gcalls=[(0, 0, 'f')]),
+        _lib(2, 'static', 'mid/ccc', [1], fcalls=[(1, 1, 'f')], gcalls=[(1, 1, 'g')]),
+        _lib(3, 'static', 'left/aaa', [2], fcalls=[(2, 2, 'f')], gcalls=[(2, 2, 'g')]),
+        _lib(4, 'static', 'right/sub/bbb', [2], fcalls=[(2, 2, 'g')], gcalls=[(2, 2, 'f')]),
+        _lib(5, 'shared', 'so/sss', [4, 3], fcalls=[(4, 4, 'f')], gcalls=[(3, 3, 'g')]),
+        _exe(6, 'bin/prog6', [4, 3], [(3, 3, 'f'), (4, 4, 'g')]),
+        _exe(7, 'tool7', [5], [(5, 5, 'f'), (5, 5, 'g')]),
+    ]))
     return out
 
 
